@@ -1,5 +1,6 @@
 """C13 — layer look-up and casts never hand back an object of the wrong type."""
 import glob, os, random, re, sys, time
+from concurrent.futures import ThreadPoolExecutor
 from vlib import core, corr
 
 sys.path.insert(0, os.path.join(core.VERIF, "translator"))
@@ -235,6 +236,8 @@ def nontrivial(op, impl):
 
 def run(chk):
     t0 = time.time()
+    pool = ThreadPoolExecutor(2)
+    f_impl = pool.submit(core.build_impl, "asan")       # the sanitizer build does not depend on the generated files
     # 1. translator: regenerate the table from the current headers (before the theorems are re-checked)
     try:
         g = gen_pdu_classes.main(core.REPO, core.VERIF)
@@ -256,13 +259,15 @@ def run(chk):
         chk.violation("translator table and a textual scan of the headers disagree on the set of PDU classes: "
                       f"only in AST table {sorted(plain - rx)}, only in text scan {sorted(rx - plain)}",
                       ["class-list-mismatch"], nofail=True)
+    # the harness needs the regenerated class list; it compiles while the theorems are re-checked
+    f_harness = pool.submit(lambda: (f_impl.result(), core.build_harness(HARNESS, extra=HARNESS_FLAGS))[1])
     # 2. theorems
     problems = chk.prove(MODULES, AUDIT, want_leanchecker=(chk.tier == "thorough"))
     if problems:
         core.lake_build(["tinsdriver"])           # the model must follow the regenerated table even if a theorem broke
     t_prove = time.time() - t0
     # 3. implementation + harness
-    exe, err = core.build_harness(HARNESS, extra=HARNESS_FLAGS)
+    exe, err = f_harness.result()
     if exe is None:
         chk.violation("implementation / harness does not build: " + err[-1500:], ["build-error", err[-3000:]], nofail=True)
         return
